@@ -15,6 +15,11 @@ CLAIMS = {
   note="Assumes file-system semantics (EvalSymlinks yields a symlink-free path; no TOCTOU between check and open), net/http path cleaning before ServeHTTP, http.ServeContent serving exactly the opened file; foreign StaticOption values are assumed to respect the option frame. One genuine defect (symlinked index.html served from outside the root) was found by the os.Open obligation and repaired (fix: a15c7cc).",
   technique="contract-based deductive verification: WP over go/ssa with call-site preconditions on file-system calls, ghost predicate resolved(), structural call-site confinement scan",
   design="§5 C17"),
+ "C12": dict(
+  text="Deductive proof that the only reflective method lookup in the interpreter (reflect.Value.MethodByName inside CallMethod) is reached with a name n such that allowedMethods[n] is true and n equals the requested name up to case (canonicalMethodName proved against that contract, including the loop over the map), that an unlisted name always yields an error, and that reflect.Value.Call is reached only when its documented panic preconditions hold (arity, every argument a valid Value assignable to its parameter type, variadic case included); structural scans prove reflective lookup/call occurs nowhere else in the package and the allow-list is an all-true map written only by package initialisation.",
+  note="Assumes reflect behaves as documented (trusted contracts for ValueOf/Type/NumIn/In/IsVariadic/AssignableTo/Zero/Call). The behaviour of the allow-listed provider methods on hostile arguments is not covered. One genuine defect (null or mistyped argument panics in reflect.Call) was found by the Call preconditions and repaired (fix commit in /repo).",
+  technique="contract-based deductive verification: WP over go/ssa, call-site preconditions on reflect calls, map-iteration invariant with ghost visited set, structural confinement scans",
+  design="§5 C12"),
 }
 
 def main():
